@@ -105,4 +105,292 @@ theorem paramListL_ok {fs : List Field} {s : In} (h : ParamsL fs s) (rest : In) 
       (by have := hm.length_le; simp only [List.length_append]; omega)
     simpa using this
 
+/-! ### names after keywords -/
+
+/-- what follows a type or member name: a gap, then `(` — never a letter or digit -/
+theorem gap_paren_notAlnum (g : In) (t : In) (hg : wsOnly g = true) :
+    ∀ c, (g ++ 40 :: t).head? = some c → isAlnum c = false := by
+  intro c hc
+  cases g with
+  | nil => simp at hc; subst hc; decide
+  | cons a r =>
+    simp only [wsOnly, List.all_cons, Bool.and_eq_true] at hg
+    simp at hc; subst hc
+    have := hg.1
+    bytes
+
+theorem typeName_gap_paren (n g t : In) (hn : typeNameOK n = true) (hg : wsOnly g = true) :
+    typeName (n ++ (g ++ 40 :: t)) = .ok n (g ++ 40 :: t) :=
+  typeName_complete n _ hn (gap_paren_notAlnum g t hg)
+
+/-! ### `error` and `method` definitions -/
+
+inductive ErrL : Err → In → Prop
+  | mk {name fs cs sc g1 g2 sp} : CommentsL cs sc → gap1OK g1 = true → typeNameOK name = true → wsOnly g2 = true →
+      ParamsL fs sp →
+      ErrL ⟨name, fs, cs⟩ (sc ++ (([101, 114, 114, 111, 114] : In) ++ (g1 ++ (name ++ (g2 ++ sp)))))
+
+theorem ParamsL.head {fs : List Field} {s : In} (h : ParamsL fs s) : ∃ t, s = 40 :: t := by
+  cases h with
+  | nil _ => exact ⟨_, rfl⟩
+  | cons _ _ _ => exact ⟨_, rfl⟩
+
+theorem errorDefL_ok {e : Err} {s : In} (h : ErrL e s) (rest : In) : errorDef (s ++ rest) = .ok e rest := by
+  cases h with
+  | @mk name fs cs sc g1 g2 sp hc h1 hn h2 hp =>
+    obtain ⟨t, ht⟩ := hp.head
+    have e1 : sc ++ (([101, 114, 114, 111, 114] : In) ++ (g1 ++ (name ++ (g2 ++ sp)))) ++ rest
+        = sc ++ (([101, 114, 114, 111, 114] : In) ++ (g1 ++ (name ++ (g2 ++ (sp ++ rest))))) := by simp
+    unfold errorDef
+    rw [e1, pcF_commentsL hc _ (plainHead_append _ (by simp) (by decide)) (by simp)]
+    simp only []
+    rw [litB_append [101, 114, 114, 111, 114] _]
+    simp only []
+    rw [ws1_gap g1 _ h1 (upper_not_asciiWs name _ hn)]
+    simp only []
+    have e2 : sp ++ rest = 40 :: (t ++ rest) := by rw [ht]; simp
+    rw [e2, typeName_gap_paren name g2 _ hn h2]
+    simp only []
+    rw [wsF_gap g2 _ h2 (plainHead_cons 40 _ (by decide)), ← e2, paramListL_ok hp rest]
+
+inductive MethodL : Method → In → Prop
+  | mk {name ins outs cs sc g1 g2 g3 g4 si so} : CommentsL cs sc → gap1OK g1 = true → typeNameOK name = true →
+      wsOnly g2 = true → ParamsL ins si → wsOnly g3 = true → wsOnly g4 = true → ParamsL outs so →
+      MethodL ⟨name, ins, outs, cs⟩
+        (sc ++ (([109, 101, 116, 104, 111, 100] : In) ++ (g1 ++ (name ++ (g2 ++ (si ++ (g3 ++ (([45, 62] : In) ++ (g4 ++ so)))))))))
+
+theorem methodDefL_ok {m : Method} {s : In} (h : MethodL m s) (rest : In) : methodDef (s ++ rest) = .ok m rest := by
+  cases h with
+  | @mk name ins outs cs sc g1 g2 g3 g4 si so hc h1 hn h2 hi h3 h4 ho =>
+    obtain ⟨ti, hti⟩ := hi.head
+    obtain ⟨to, hto⟩ := ho.head
+    generalize hZ : g3 ++ (([45, 62] : In) ++ (g4 ++ (so ++ rest))) = Z
+    have e1 : sc ++ (([109, 101, 116, 104, 111, 100] : In) ++ (g1 ++ (name ++ (g2 ++ (si ++ (g3 ++ (([45, 62] : In) ++ (g4 ++ so)))))))) ++ rest
+        = sc ++ (([109, 101, 116, 104, 111, 100] : In) ++ (g1 ++ (name ++ (g2 ++ (si ++ Z))))) := by rw [← hZ]; simp
+    unfold methodDef
+    rw [e1, pcF_commentsL hc _ (plainHead_append _ (by simp) (by decide)) (by simp)]
+    simp only []
+    rw [litB_append [109, 101, 116, 104, 111, 100] _]
+    simp only []
+    rw [ws1_gap g1 _ h1 (upper_not_asciiWs name _ hn)]
+    simp only []
+    have e2 : si ++ Z = 40 :: (ti ++ Z) := by rw [hti]; simp
+    rw [e2, typeName_gap_paren name g2 _ hn h2]
+    simp only []
+    rw [wsF_gap g2 _ h2 (plainHead_cons 40 _ (by decide)), ← e2, paramListL_ok hi Z]
+    simp only []
+    rw [← hZ, wsF_gap g3 _ h3 (plainHead_append _ (by simp) (by decide)), litB_append [45, 62] _]
+    simp only []
+    have e3 : so ++ rest = 40 :: (to ++ rest) := by rw [hto]; simp
+    rw [e3, wsF_gap g4 _ h4 (plainHead_cons 40 _ (by decide)), ← e3, paramListL_ok ho rest]
+
+/-! ### `type` definitions -/
+
+/-- the member loop of `type_def` on the fields of an object type, for every layout -/
+theorem tdLoopObjL_ok (cs0 : List In) (nm : In) : ∀ (fs : List Field) (f : Field) (s1 s2 : In),
+    FieldL f s1 → FieldsMoreL fs s2 →
+    ∀ (k : Nat) (rest : In) (acc : List Field), fs.length < k →
+    typeDef.loop cs0 nm k (s1 ++ (s2 ++ rest)) acc [] = .ok (.obj nm (acc ++ f :: fs) cs0) rest := by
+  intro fs
+  induction fs with
+  | nil =>
+    intro f s1 s2 hf hm k rest acc hk
+    obtain ⟨k, rfl⟩ : ∃ k', k = k' + 1 := ⟨k - 1, by omega⟩
+    cases hm with
+    | @done g hg =>
+      cases hf with
+      | @mk n t cs sc st g1 g2 hc hn h1 h2 ht =>
+        have e : sc ++ (n ++ (g1 ++ 58 :: (g2 ++ st))) ++ (g ++ [41] ++ rest)
+            = sc ++ (n ++ (g1 ++ 58 :: (g2 ++ (st ++ (g ++ 41 :: rest))))) := by simp
+        have ha : alphaHead (n ++ (g1 ++ 58 :: (g2 ++ (st ++ (g ++ 41 :: rest))))) = true := alphaHead_append _ (fieldNameOK_alphaHead hn)
+        rw [e, typeDef.loop, pcF_commentsL hc _ (alphaHead_plain ha) (alphaHead_ne_nil ha)]
+        simp only []
+        rw [fieldName_complete n _ hn (punctHead_stopsName (gap_punct g1 58 _ h1 (by decide)))]
+        simp only []
+        rw [whitespaceOnly_gap g1 _ h1 (plainHead_nonWs (plainHead_cons 58 _ (by decide))), litB1 58 _]
+        simp only []
+        rw [whitespaceOnly_gap g2 _ h2 (plainHead_nonWs (ht.plain _)), varlinkType_tyFuelL ht _ ⟨g, 41 :: rest, rfl, hg, rfl⟩]
+        simp only []
+        rw [whitespaceOnly_gap g _ hg (plainHead_nonWs (plainHead_cons 41 rest (by decide))),
+          litB_cons_ne 44 41 [] rest (by decide)]
+        simp only []
+        rw [litB1 41 rest]
+        simp
+  | cons f' fs ih =>
+    intro f s1 s2 hf hm k rest acc hk
+    obtain ⟨k, rfl⟩ : ∃ k', k = k' + 1 := ⟨k - 1, by omega⟩
+    cases hm with
+    | @more _ _ g1' g2' s1' s2' h1' h2' hf' hm' =>
+      cases hf with
+      | @mk n t cs sc st g1 g2 hc hn h1 h2 ht =>
+        generalize hZ : s1' ++ (s2' ++ rest) = Z
+        have e : sc ++ (n ++ (g1 ++ 58 :: (g2 ++ st))) ++ (g1' ++ 44 :: (g2' ++ (s1' ++ s2')) ++ rest)
+            = sc ++ (n ++ (g1 ++ 58 :: (g2 ++ (st ++ (g1' ++ 44 :: (g2' ++ Z)))))) := by rw [← hZ]; simp
+        have ha : alphaHead (n ++ (g1 ++ 58 :: (g2 ++ (st ++ (g1' ++ 44 :: (g2' ++ Z)))))) = true := alphaHead_append _ (fieldNameOK_alphaHead hn)
+        rw [e, typeDef.loop, pcF_commentsL hc _ (alphaHead_plain ha) (alphaHead_ne_nil ha)]
+        simp only []
+        rw [fieldName_complete n _ hn (punctHead_stopsName (gap_punct g1 58 _ h1 (by decide)))]
+        simp only []
+        rw [whitespaceOnly_gap g1 _ h1 (plainHead_nonWs (plainHead_cons 58 _ (by decide))), litB1 58 _]
+        simp only []
+        rw [whitespaceOnly_gap g2 _ h2 (plainHead_nonWs (ht.plain _)), varlinkType_tyFuelL ht _ ⟨g1', 44 :: (g2' ++ Z), rfl, h1', rfl⟩]
+        simp only []
+        rw [whitespaceOnly_gap g1' _ h1' (plainHead_nonWs (plainHead_cons 44 _ (by decide))), litB1 44 _]
+        simp only []
+        rw [← hZ, whitespaceOnly_gap g2' _ h2' (hf'.nonWs _)]
+        rw [ih f' s1' s2' hf' hm' k rest (acc ++ [(n, t, cs)]) (by simp at hk; omega)]
+        simp
+
+/-- one variant of a custom enum: its comment lines, then the name -/
+inductive CVarL : In × List In → In → Prop
+  | mk {v cs sc} : CommentsL cs sc → fieldNameOK v = true → CVarL (v, cs) (sc ++ v)
+/-- the variants after the first, then the closing parenthesis -/
+inductive CVarsMoreL : List (In × List In) → In → Prop
+  | done {g} : wsOnly g = true → CVarsMoreL [] (g ++ [41])
+  | more {v vs g1 g2 s1 s2} : wsOnly g1 = true → wsOnly g2 = true → CVarL v s1 → CVarsMoreL vs s2 →
+      CVarsMoreL (v :: vs) (g1 ++ 44 :: (g2 ++ (s1 ++ s2)))
+
+theorem CVarL.nonWs {v : In × List In} {s : In} (h : CVarL v s) (z : In) : nonWs (s ++ z) = true := by
+  cases h with
+  | @mk v cs sc hc hv =>
+    rw [List.append_assoc]
+    exact hc.nonWs_append _ (plainHead_nonWs (alphaHead_plain (alphaHead_append _ (fieldNameOK_alphaHead hv))))
+
+theorem CVarL.head_not_41 {v : In × List In} {s : In} (h : CVarL v s) (z : In) : (s ++ z).head? ≠ some 41 := by
+  cases h with
+  | @mk v cs sc hc hv =>
+    cases hc with
+    | nil =>
+      cases v with
+      | nil => simp [fieldNameOK] at hv
+      | cons c tl =>
+        simp only [fieldNameOK, Bool.and_eq_true] at hv
+        have hc := hv.1
+        simp only [List.nil_append, List.cons_append, List.head?_cons, ne_eq, Option.some.injEq]
+        bytes
+    | cons _ _ _ _ => simp
+
+theorem CVarsMoreL.length_le {vs : List (In × List In)} {s : In} (h : CVarsMoreL vs s) : vs.length ≤ s.length := by
+  induction h with
+  | done _ => simp
+  | more _ _ _ _ ih => simp only [List.length_cons, List.length_append]; omega
+
+/-- the member loop of `type_def` on the variants of an enum type, for every layout -/
+theorem tdLoopEnmL_ok (cs0 : List In) (nm : In) : ∀ (vs : List (In × List In)) (v : In × List In) (s1 s2 : In),
+    CVarL v s1 → CVarsMoreL vs s2 →
+    ∀ (k : Nat) (rest : In) (acc : List (In × List In)), vs.length < k →
+    typeDef.loop cs0 nm k (s1 ++ (s2 ++ rest)) [] acc = .ok (.enm nm (acc ++ v :: vs) cs0) rest := by
+  intro vs
+  induction vs with
+  | nil =>
+    intro v s1 s2 hv hm k rest acc hk
+    obtain ⟨k, rfl⟩ : ∃ k', k = k' + 1 := ⟨k - 1, by omega⟩
+    cases hm with
+    | @done g hg =>
+      cases hv with
+      | @mk n cs sc hc hn =>
+        have e : sc ++ n ++ (g ++ [41] ++ rest) = sc ++ (n ++ (g ++ 41 :: rest)) := by simp
+        have ha : alphaHead (n ++ (g ++ 41 :: rest)) = true := alphaHead_append _ (fieldNameOK_alphaHead hn)
+        rw [e, typeDef.loop, pcF_commentsL hc _ (alphaHead_plain ha) (alphaHead_ne_nil ha)]
+        simp only []
+        rw [fieldName_complete n _ hn (punctHead_stopsName (gap_punct g 41 _ hg (by decide)))]
+        simp only []
+        rw [whitespaceOnly_gap g _ hg (plainHead_nonWs (plainHead_cons 41 rest (by decide))),
+          litB_cons_ne 58 41 [] rest (by decide)]
+        simp only []
+        rw [whitespaceOnly_plain (plainHead_cons 41 rest (by decide)), litB_cons_ne 44 41 [] rest (by decide)]
+        simp only []
+        rw [litB1 41 rest]
+        simp
+  | cons w ws ih =>
+    intro v s1 s2 hv hm k rest acc hk
+    obtain ⟨k, rfl⟩ : ∃ k', k = k' + 1 := ⟨k - 1, by omega⟩
+    cases hm with
+    | @more _ _ g1' g2' s1' s2' h1' h2' hw hm' =>
+      cases hv with
+      | @mk n cs sc hc hn =>
+        generalize hZ : s1' ++ (s2' ++ rest) = Z
+        have e : sc ++ n ++ (g1' ++ 44 :: (g2' ++ (s1' ++ s2')) ++ rest) = sc ++ (n ++ (g1' ++ 44 :: (g2' ++ Z))) := by
+          rw [← hZ]; simp
+        have ha : alphaHead (n ++ (g1' ++ 44 :: (g2' ++ Z))) = true := alphaHead_append _ (fieldNameOK_alphaHead hn)
+        rw [e, typeDef.loop, pcF_commentsL hc _ (alphaHead_plain ha) (alphaHead_ne_nil ha)]
+        simp only []
+        rw [fieldName_complete n _ hn (punctHead_stopsName (gap_punct g1' 44 _ h1' (by decide)))]
+        simp only []
+        rw [whitespaceOnly_gap g1' _ h1' (plainHead_nonWs (plainHead_cons 44 _ (by decide))),
+          litB_cons_ne 58 44 [] _ (by decide)]
+        simp only []
+        rw [whitespaceOnly_plain (plainHead_cons 44 _ (by decide)), litB1 44 _]
+        simp only []
+        rw [← hZ, whitespaceOnly_gap g2' _ h2' (hw.nonWs _)]
+        rw [ih w s1' s2' hw hm' k rest (acc ++ [(n, cs)]) (by simp at hk; omega)]
+        simp
+
+inductive TypeL : CT → In → Prop
+  | obj {name fs cs sc g1 g2 sp} : CommentsL cs sc → gap1OK g1 = true → typeNameOK name = true → wsOnly g2 = true →
+      ParamsL fs sp →
+      TypeL (.obj name fs cs) (sc ++ (([116, 121, 112, 101] : In) ++ (g1 ++ (name ++ (g2 ++ sp)))))
+  | enm {name v vs cs sc g1 g2 g0 s1 s2} : CommentsL cs sc → gap1OK g1 = true → typeNameOK name = true →
+      wsOnly g2 = true → wsOnly g0 = true → CVarL v s1 → CVarsMoreL vs s2 →
+      TypeL (.enm name (v :: vs) cs)
+        (sc ++ (([116, 121, 112, 101] : In) ++ (g1 ++ (name ++ (g2 ++ 40 :: (g0 ++ (s1 ++ s2)))))))
+
+theorem typeDefL_ok {t : CT} {s : In} (h : TypeL t s) (rest : In) : typeDef (s ++ rest) = .ok t rest := by
+  cases h with
+  | @obj name fs cs sc g1 g2 sp hc h1 hn h2 hp =>
+    cases hp with
+    | @nil g hg =>
+      have e1 : sc ++ (([116, 121, 112, 101] : In) ++ (g1 ++ (name ++ (g2 ++ 40 :: (g ++ [41]))))) ++ rest
+          = sc ++ (([116, 121, 112, 101] : In) ++ (g1 ++ (name ++ (g2 ++ 40 :: (g ++ 41 :: rest))))) := by simp
+      unfold typeDef
+      rw [e1, pcF_commentsL hc _ (plainHead_append _ (by simp) (by decide)) (by simp)]
+      simp only []
+      rw [litB_append [116, 121, 112, 101] _]
+      simp only []
+      rw [ws1_gap g1 _ h1 (upper_not_asciiWs name _ hn)]
+      simp only []
+      rw [typeName_gap_paren name g2 _ hn h2]
+      simp only []
+      rw [wsF_gap g2 _ h2 (plainHead_cons 40 _ (by decide)), litB1 40 _]
+      simp only []
+      rw [whitespaceOnly_gap g _ hg (plainHead_nonWs (plainHead_cons 41 rest (by decide))), litB1 41 rest]
+    | @cons f fs g0 s1 s2 hg0 hf hm =>
+      have e1 : sc ++ (([116, 121, 112, 101] : In) ++ (g1 ++ (name ++ (g2 ++ 40 :: (g0 ++ (s1 ++ s2)))))) ++ rest
+          = sc ++ (([116, 121, 112, 101] : In) ++ (g1 ++ (name ++ (g2 ++ 40 :: (g0 ++ (s1 ++ (s2 ++ rest))))))) := by simp
+      unfold typeDef
+      rw [e1, pcF_commentsL hc _ (plainHead_append _ (by simp) (by decide)) (by simp)]
+      simp only []
+      rw [litB_append [116, 121, 112, 101] _]
+      simp only []
+      rw [ws1_gap g1 _ h1 (upper_not_asciiWs name _ hn)]
+      simp only []
+      rw [typeName_gap_paren name g2 _ hn h2]
+      simp only []
+      rw [wsF_gap g2 _ h2 (plainHead_cons 40 _ (by decide)), litB1 40 _]
+      simp only []
+      rw [whitespaceOnly_gap g0 _ hg0 (hf.nonWs _), litB_head_ne 41 [] _ (hf.head_not_41 _)]
+      simp only []
+      have := tdLoopObjL_ok cs name fs f s1 s2 hf hm ((s1 ++ (s2 ++ rest)).length + 1) rest []
+        (by have := hm.length_le; simp only [List.length_append]; omega)
+      simpa using this
+  | @enm name v vs cs sc g1 g2 g0 s1 s2 hc h1 hn h2 hg0 hv hm =>
+    have e1 : sc ++ (([116, 121, 112, 101] : In) ++ (g1 ++ (name ++ (g2 ++ 40 :: (g0 ++ (s1 ++ s2)))))) ++ rest
+        = sc ++ (([116, 121, 112, 101] : In) ++ (g1 ++ (name ++ (g2 ++ 40 :: (g0 ++ (s1 ++ (s2 ++ rest))))))) := by simp
+    unfold typeDef
+    rw [e1, pcF_commentsL hc _ (plainHead_append _ (by simp) (by decide)) (by simp)]
+    simp only []
+    rw [litB_append [116, 121, 112, 101] _]
+    simp only []
+    rw [ws1_gap g1 _ h1 (upper_not_asciiWs name _ hn)]
+    simp only []
+    rw [typeName_gap_paren name g2 _ hn h2]
+    simp only []
+    rw [wsF_gap g2 _ h2 (plainHead_cons 40 _ (by decide)), litB1 40 _]
+    simp only []
+    rw [whitespaceOnly_gap g0 _ hg0 (hv.nonWs _), litB_head_ne 41 [] _ (hv.head_not_41 _)]
+    simp only []
+    have := tdLoopEnmL_ok cs name vs v s1 s2 hv hm ((s1 ++ (s2 ++ rest)).length + 1) rest []
+      (by have := hm.length_le; simp only [List.length_append]; omega)
+    simpa using this
+
 end Idl
